@@ -669,6 +669,10 @@ class StaticResource(PrefixResource):
                     raise HTTPForbidden()
         except PermissionError as error:
             raise HTTPForbidden() from error
+        except OSError as error:
+            # e.g. a path segment longer than the file system allows;
+            # FileResponse responds to such errors with 404 as well.
+            raise HTTPNotFound() from error
 
         # Return the file response, which handles all other checks.
         return FileResponse(file_path, chunk_size=self._chunk_size)
